@@ -114,7 +114,7 @@ def check(tier, seed):
     from py_gql import graphql_blocking
     from py_gql.exc import CoercionError, InvalidValue
     from py_gql.lang import parse_value
-    from py_gql.schema import Argument, Field, Int, NonNullType, ObjectType, Schema, String
+    from py_gql.schema import Argument, Field, Int, ListType, NonNullType, ObjectType, Schema, String
     from py_gql.utilities import coerce_value, value_from_ast
     run = Run("C07", tier, seed)
     # --- A. deductive -------------------------------------------------------------------------------------
@@ -145,7 +145,7 @@ def check(tier, seed):
             return "ok"
         f = Field("f", String, args=[Argument("arg", t)], resolver=resolve_f)
         g = Field("g", String, args=[Argument("a", NonNullType(Int), default_value=5), Argument("b", bases["Inner"], default_value={"req": "d", "n": 7, "c": 1}),
-                                      Argument("py_arg", Int, python_name="pyArg")], resolver=resolve_f)
+                                      Argument("py_arg", Int, python_name="pyArg"), Argument("lst", ListType(String)), Argument("lst2", ListType(NonNullType(String)))], resolver=resolve_f)
         return Schema(ObjectType("Query", [f, g]))
 
     for base, bt in bases.items():
@@ -239,7 +239,10 @@ def check(tier, seed):
                          ("query ($x: Int) { g(a: $x) }", {"x": 3}), ("query ($x: Int!) { g(a: $x) }", {"x": 3}), ("{ g(b: null) }", {}), ("{ g(b: {req: \"z\"}) }", {}),
                          ("query ($b: Inner) { g(b: $b) }", {"b": {"req": "z"}}), ("query ($b: Inner) { g(b: $b) }", {"b": None}), ("query ($b: Inner) { g(b: $b) }", {}),
                          ("{ g(py_arg: 2) }", {}), ("query ($p: Int) { g(py_arg: $p) }", {}), ("query ($p: Int) { g(py_arg: $p) }", {"p": None}),
-                         ("query ($p: Int = 9) { g(py_arg: $p) }", {})]:
+                         ("query ($p: Int = 9) { g(py_arg: $p) }", {}),
+                         ("query ($t: String) { g(lst: [$t, \"k\"]) }", {}), ("query ($t: String) { g(lst: [$t]) }", {"t": None}),
+                         ("query ($t: String) { g(lst: [$t]) }", {"t": "v"}),
+                         ("query ($t: String!) { g(lst2: [$t]) }", {"t": "v"}), ("query ($o: Inner) { g(b: $o) }", {"o": {"req": "q", "again": {"req": "w"}}})]:
         n += 1
         nontrivial += 1
         del calls[:]
